@@ -139,6 +139,8 @@ pub struct FsSys {
     unscripted: Arc<Mutex<u64>>,
     crashes: u32,
     skipped: bool,
+    /// the live view already diverged for a reason outside the listed families (C07 mode)
+    tainted: bool,
     pub verbose: bool,
 }
 
@@ -336,12 +338,19 @@ impl FsSys {
 /// Replay a list of ops on a fresh filesystem; returns the clause and observable of the
 /// first divergence.
 pub fn run_ops(cfg: &FsCfg, ops: &[Op]) -> Option<(String, String)> {
+    run_ops_ext(cfg, ops, false)
+}
+
+/// `only_post_crash`: live-view divergences are passed over (used when minimising a
+/// post-crash divergence that was reached through one)
+fn run_ops_ext(cfg: &FsCfg, ops: &[Op], only_post_crash: bool) -> Option<(String, String)> {
     let mut s = FsSys::init(cfg);
     for &op in ops {
         s.hist.push(op);
         let r = std::panic::catch_unwind(std::panic::AssertUnwindSafe(|| s.step(op)));
         match r {
             Ok(Ok(())) => {}
+            Ok(Err(v)) if only_post_crash && v.clause != "post-crash" => {}
             Ok(Err(v)) => {
                 let obs = v.sig.split('|').next().unwrap_or("").to_string();
                 return Some((v.clause, obs));
@@ -360,6 +369,7 @@ pub fn run_ops(cfg: &FsCfg, ops: &[Op]) -> Option<(String, String)> {
 fn signature(cfg: &FsCfg, hist: &[Op], clause: &str, obs: &str) -> (String, Vec<Op>) {
     let mut cur: Vec<Op> = hist.to_vec();
     let target = (clause.to_string(), obs.to_string());
+    let only_pc = clause == "post-crash" && cfg.prop == Prop::C07;
     loop {
         let mut shrunk = false;
         let mut i = 0;
@@ -367,7 +377,7 @@ fn signature(cfg: &FsCfg, hist: &[Op], clause: &str, obs: &str) -> (String, Vec<
             // never remove the last op (the one that exposes the divergence)
             let mut cand = cur.clone();
             cand.remove(i);
-            if run_ops(cfg, &cand) == Some(target.clone()) {
+            if run_ops_ext(cfg, &cand, only_pc) == Some(target.clone()) {
                 cur = cand;
                 shrunk = true;
             } else {
@@ -493,6 +503,7 @@ impl System for FsSys {
             unscripted,
             crashes: 0,
             skipped: false,
+            tainted: false,
             verbose: false,
         }
     }
@@ -530,10 +541,23 @@ impl System for FsSys {
             Ok(()) => Ok(()),
             Err(v) => {
                 if self.cfg.prop == Prop::C07 && v.clause != "post-crash" {
-                    // a no-crash divergence is C10's subject; the model no longer tracks the
-                    // implementation, so this branch is not judged further under C07
-                    self.terminal = true;
-                    self.skipped = true;
+                    // a no-crash divergence is C10's subject. If it belongs to the listed
+                    // path-keyed-log family the model no longer tracks the implementation
+                    // and the branch is not judged further under C07; any other live-view
+                    // divergence is passed over here (C10 reports it) but the branch goes
+                    // on, so that what a crash leaves behind is still compared with what
+                    // was made durable
+                    if self.tainted {
+                        return Ok(());
+                    }
+                    let obs = v.sig.split('|').next().unwrap_or("").to_string();
+                    let (sig, _) = signature(&self.cfg, &self.hist, &v.clause, &obs);
+                    if sig.starts_with("fs-name-reuse:") {
+                        self.terminal = true;
+                        self.skipped = true;
+                    } else {
+                        self.tainted = true;
+                    }
                     return Ok(());
                 }
                 let obs = v.sig.split('|').next().unwrap_or("").to_string();
@@ -553,6 +577,7 @@ impl System for FsSys {
         d.add(&self.model);
         d.add(&self.hist.len());
         d.add(&self.terminal);
+        d.add(&self.tainted);
         d.finish()
     }
 
